@@ -22,7 +22,8 @@ open FimVerif FimVerif.Store FimVerif.Gen.StoreConsts
 /-- the control-flow facts observed on the code by `gen/storeflow.py` are the ones the three models mirror (see
     `C04.flow_is_modelled`; restated here because both backends' agreement rests on the allocator and lookup facts) -/
 theorem flow_is_modelled :
-    Gen.StoreFlow.flow = Store.modelFlow ∧ Gen.StoreFlow.gidFiltered = Store.modelFiltered := by decide
+    Gen.StoreFlow.flow = Store.modelFlow ∧ Gen.StoreFlow.gidFiltered = Store.modelFiltered ∧
+    Gen.StoreFlow.dgidFiltered = DStore.modelFiltered := by decide
 
 /-! ## identity properties -/
 
@@ -312,6 +313,42 @@ theorem backends_agree (op : Op) (s : Store) (d : DStore.DStore) (hs : Store.Inv
   rw [hO] at h1
   rw [heq] at h1
   exact ⟨h1.1.trans h2.1.symm, h1.2.trans h2.2.symm⟩
+
+/-- **backends agree after any two histories.**  Whatever each backend has been through - two different histories, `GraphID`
+    rewrites the one-graph-per-id store cannot follow, merges only the shared store performs - a single-graph call that
+    writes no key (every read-only request in particular: `graph_exists`, listings, `node_exists`, property reads) addressed
+    to a graph that both stores show with the same content returns the same result on both and leaves that graph with the
+    same content on both.  No `Homed` hypothesis: the container of the disjoint store may hold nodes carrying other graph
+    ids.  (What the oracle checks after the backends have parted company; class of seeded C05-r4-3.) -/
+theorem backends_agree_after_any_histories (ops₁ ops₂ : List Op) (op : Op)
+    (hsingle : DStore.single op = true) (hk : op.keepsKeys = true)
+    (heq : Store.abs (Store.run ops₁ Store.init) op.target = DStore.abs (DStore.run ops₂ DStore.init) op.target) :
+    outAbs (Store.step op (Store.run ops₁ Store.init)).1 = outAbs (DStore.step op (DStore.run ops₂ DStore.init)).1 ∧
+    Store.abs (Store.step op (Store.run ops₁ Store.init)).2 op.target =
+      DStore.abs (DStore.step op (DStore.run ops₂ DStore.init)).2 op.target := by
+  have h₁ : ∀ (ops : List Op) (s : Store), Store.Inv s → Store.Inv (Store.run ops s) := by
+    intro ops
+    induction ops with
+    | nil => intro s h; exact h
+    | cons o r ih => intro s h; simp only [Store.run, List.foldl_cons]; exact ih _ (Store.inv_step o s h)
+  have h₂ : ∀ (ops : List Op) (d : DStore.DStore), DStore.Inv d → DStore.Inv (DStore.run ops d) := by
+    intro ops
+    induction ops with
+    | nil => intro d h; exact h
+    | cons o r ih => intro d h; simp only [DStore.run, List.foldl_cons]; exact ih _ (DStore.inv_step o d h)
+  exact backends_agree op _ _ (h₁ ops₁ _ Store.inv_init) (h₂ ops₂ _ DStore.inv_init) hsingle hk heq
+
+/-- non-vacuity: a node of g1 re-homed to g2 by a whole-graph `GraphID` update on both stores (the disjoint one keeps it in
+    g1's container); `graph_exists` on g1 is such a call, and both stores show g1 empty -/
+example :
+    DStore.single (Op.graphExists "g1") = true ∧ (Op.graphExists "g1").keepsKeys = true ∧
+    Store.abs (Store.run [Op.addNode "g1" "n1" "Link" none, Op.updateNodesProperty "g1" "GraphID" (.str "g2")] Store.init) "g1" =
+      DStore.abs (DStore.run [Op.addNode "g1" "n1" "Link" none, Op.updateNodesProperty "g1" "GraphID" (.str "g2")] DStore.init) "g1" ∧
+    (DStore.sub (DStore.run [Op.addNode "g1" "n1" "Link" none, Op.updateNodesProperty "g1" "GraphID" (.str "g2")] DStore.init)
+      "g1").nodes.length = 1 ∧
+    (DStore.step (Op.graphExists "g1")
+      (DStore.run [Op.addNode "g1" "n1" "Link" none, Op.updateNodesProperty "g1" "GraphID" (.str "g2")] DStore.init)).1 =
+      .ok (.bool false) := ⟨by decide, by decide, by rfl, by decide, by rfl⟩
 
 example : AGraph.covers (.addLink "g" "a" "has" "b" none) = true ∧ DStore.single (.unsetNodeProperty "g" "a" "p") = true := by decide
 
